@@ -35,6 +35,21 @@ CLAIMED = {
     'C16': dict(cat='exploration', technique='mutation fuzzing of near-valid programs under catch_unwind + watchdog, with Coq totality theorems for the modelled components',
                 text='Totality of the modelled components (optimiser, branch repair, call-graph marking) is proved in Coq; the parser and generator are explored with token-level mutants, near-valid templates and random bytes under every option set, each compilation in a worker with a watchdog; outcomes must be Ok or an error located inside the input. Panics are attributed to a known finding only by panic site and input class.',
                 ref='DESIGN.md section 6 C16'),
+    'C06': dict(cat='proof', technique='Coq theorems on a Gallina model of the preprocessor line table (one entry per output line, entry = origin) + exact per-run correspondence of the table with the real cpp::process + error injection at known source positions',
+                text='The model of cpp::process (validated to reproduce output, line table, literals and errors exactly) carries the line-table theorems; the table is compared with the real one on thousands of inputs full of line-shifting constructs every run; and planted defects of every kind (preprocessor, syntax, semantic, code generation) behind random comments/splices/skipped regions/defines/includes must be reported at their true file, line and include site.',
+                ref='DESIGN.md section 6 C06'),
+    'C07': dict(cat='proof', technique='Coq theorems on the Gallina model of the conditional machine and #if evaluator + exact correspondence with cpp::process + reference spec_active on random well-nested trees',
+                text='Selection of branches for every well-nested tree and inertness of directives in unselected regions are stated on the model (general theorem in Proofs/CondFacts.v when present, pinned examples otherwise); the model is compared exactly with cpp::process each run; thousands of random trees are checked against the property\'s two-line reference. Known findings: numbers other than 0/1 in #if.',
+                ref='DESIGN.md section 6 C07'),
+    'C08': dict(cat='proof', technique='Coq theorems on the model of macro replacement (token exactness of the word-boundary replacement, positional arguments) + exact correspondence + reference token-level expander',
+                text='Token exactness is proved on the model (Proofs/MacroFacts.v when present); the model is compared exactly with cpp::process on macro-heavy inputs (up to 150 macros, nested calls and parentheses, -D, #undef); expansions are compared with a reference C-like expander. Known findings: parameter shadowing an earlier macro, -D chains.',
+                ref='DESIGN.md section 6 C08'),
+    'C09': dict(cat='proof', technique='Coq theorems (escape table = C, single NUL, literal bodies opaque to the scanner) + exact correspondence of literal extraction and of stored bytes with the models + reference C decoding',
+                text='Escape decoding is proved equal to C on the finite escape table and the NUL/concatenation rule by definition; the scanner theorems are in Proofs/ScanFacts.v when present; literal extraction and the bytes the real compiler stores (initialisers, tables, arguments, asm, character constants; every printable character after a backslash) are compared with the extracted models and with C\'s decoding each run.',
+                ref='DESIGN.md section 6 C09'),
+    'C11': dict(cat='proof', technique='Coq theorems (optimiser never touches comment lines; scanner comment/splice theorems) + exact correspondence of the scanner + metamorphic re-layout of generated programs + co-execution under listing options',
+                text='Comment lines are proved untouched by the optimiser; scanner theorems in Proofs/ScanFacts.v when present; every generated program is re-written with comments of many shapes, blank lines, tabs, CR-LF and splices between tokens and must yield identical declarations and instructions; --insert-code / -W must leave -O0 instructions identical and optimised behaviour identical (co-execution). Known finding: // inside a block comment.',
+                ref='DESIGN.md section 6 C11'),
 }
 
 NOT_YET = {}
